@@ -130,6 +130,43 @@ pub fn run(cfg: &Cfg, out: &mut Out) {
         case(out, &[b'a', x, 0]);
         case(out, &[x, 0, x]);
     }
+    // stress: long arguments (around the 8/16/32/64-byte block sizes) with the first nul at
+    // EVERY position and each of the bytes a word-at-a-time scanner confuses with a nul
+    // (0x01, 0x80, 0xFF, 0x7F) directly before it; with and without a second nul behind
+    {
+        let lens: &[usize] = if cfg.thorough { &[7, 8, 9, 15, 16, 17, 31, 32, 33, 47, 63, 64, 65, 96, 127, 128, 129] } else { &[8, 16, 31, 32, 33, 64, 65, 96] };
+        for &len in lens {
+            for fill in [b'a', 0x01u8, 0x80] {
+                let base = vec![fill; len];
+                case(out, &base);
+                for p in 0..len {
+                    for pre in [None, Some(0x01u8), Some(0x80), Some(0xFF), Some(0x7F), Some(b'a')] {
+                        if fill != b'a' && pre.is_some() {
+                            continue;
+                        }
+                        let mut v = base.clone();
+                        v[p] = 0;
+                        if let Some(x) = pre {
+                            if p == 0 {
+                                continue;
+                            }
+                            v[p - 1] = x;
+                            if p >= 3 && x == 0x01 {
+                                v[p - 2] = x;
+                                v[p - 3] = x;
+                            }
+                        }
+                        case(out, &v);
+                        if p + 1 == len || (p % 5 == 0) {
+                            let mut w = v.clone();
+                            w.push(0);
+                            case(out, &w);
+                        }
+                    }
+                }
+            }
+        }
+    }
     // seeded random: longer strings, nul-poor so that late terminators occur, with
     // pieces of multi-byte text
     let mut rng = Rng::new(cfg.seed ^ 0xC20);
